@@ -32,7 +32,10 @@ import Verif.Model.Admin
 
     tok   p= c= d= g= (bits) prov= rk= now= nbf= exp= iat= aud=<raw~stripped,…> dns= path= m= iss= sub=
           sans= adm=<sub~provname~id~super,…> rep=<0|1> routed=<0|1>      one admin-API request
-          → `<ok:<admin id>:<super>|401|404> h-<401|not401|unrouted> aw-<0|1>`
+          → `<ok:<admin id>:<super>|401|404> h-<401|not401|unrouted> aw-<0|1> st-<0|1>` (st: reuse key stored)
+
+    route m=<method> p=<path> c=<chain,…>   one route extracted from handler.go → present | absent | chain-differs:…
+    routes                                  → n=<size of the Lean table>
 
   Output: `ok<number of accepted mutations>:` then one item per operation joined by `;`.  A mutating operation yields
   `<outcome>#<dump of every index>`; Find yields `f:<ids>/<next>`; pages `p:<page>|<page>…`.
@@ -80,6 +83,17 @@ def prov? : List String → Option Prov
   | [id, name, tok, kid, sum, pol] => do
     pure { id := (← str? id), name := (← str? name), tok := (← str? tok), kid := (← optStr? kid), sum := (← str? sum),
            pol := (← optPol? pol) }
+  | [id, name, tok, kid, sum, pol, det] => do
+    -- det = <type>.<kind of details | !>[.<Init succeeds 0|1>]
+    match det.splitOn "." with
+    | [k, d] =>
+      pure { id := (← str? id), name := (← str? name), tok := (← str? tok), kid := (← optStr? kid), sum := (← str? sum),
+             pol := (← optPol? pol), kind := (← k.toNat?), dkind := (← (if d = "!" then some none else d.toNat?.map some)) }
+    | [k, d, i] =>
+      pure { id := (← str? id), name := (← str? name), tok := (← str? tok), kid := (← optStr? kid), sum := (← str? sum),
+             pol := (← optPol? pol), kind := (← k.toNat?), dkind := (← (if d = "!" then some none else d.toNat?.map some)),
+             initOK := (← bool? i) }
+    | _ => none
   | _ => none
 
 def adm? : List String → Option Adm
@@ -220,6 +234,9 @@ def authDump (univ : List Str) (s : Auth) : String :=
 
 def authOp (univ : List Str) (s : Auth) (tok : String) : Option (Auth × String) :=
   let fin (r : Auth × AuthOut) := let (s', o) := r; some (s', authOutS o ++ "#" ++ authDump univ s')
+  -- a conversion error of Store/UpdateProvisioner is an internal server error of the admin API
+  let finP (r : Auth × AuthOut) := let (s', o) := r
+    some (s', (if o = .internalFailure then "ise" else authOutS o) ++ "#" ++ authDump univ s')
   match tok.splitOn ":" with
   | "ip" :: r => do
     let p ← prov? r
@@ -241,6 +258,10 @@ def authOp (univ : List Str) (s : Auth) (tok : String) : Option (Auth × String)
     fin (Auth.step current (← faults? f) s (.storeProv (← prov? [id, name, tok, kid, sum, pol])))
   | ["up", id, name, tok, kid, sum, f, pol] => do
     fin (Auth.step current (← faults? f) s (.updateProv (← prov? [id, name, tok, kid, sum, pol])))
+  | ["sp", id, name, tok, kid, sum, f, pol, det] => do
+    finP (Auth.step current (← faults? f) s (.storeProv (← prov? [id, name, tok, kid, sum, pol, det])))
+  | ["up", id, name, tok, kid, sum, f, pol, det] => do
+    finP (Auth.step current (← faults? f) s (.updateProv (← prov? [id, name, tok, kid, sum, pol, det])))
   | ["cp", cur, pol, f] => do fin (Auth.step current (← faults? f) s (.createPolicy (← str? cur) (← pol? pol)))
   | ["mp", cur, pol, f] => do fin (Auth.step current (← faults? f) s (.updatePolicy (← str? cur) (← pol? pol)))
   | ["dp", f] => do fin (Auth.step current (← faults? f) s .removePolicy)
@@ -279,12 +300,27 @@ def admEntry? (t : String) : Option ((Str × Str) × Adm) :=
     pure ((sub, (← str? pn)), { id := (← str? id), sub := sub, provId := [], super := (← bool? sup) })
   | _ => none
 
+def provEntry? (t : String) : Option Prov :=
+  match t.splitOn "~" with
+  | [id, name] => do pure { id := (← str? id), name := (← str? name), tok := [], kid := none, sum := [] }
+  | _ => none
+
+def origin? (t : String) : Option CertOrigin :=
+  match t.splitOn "~" with
+  | [r, e] => do pure { recorded := (← optStr? r), extName := (← optStr? e) }
+  | _ => none
+
 def tokEval (line : String) : Option String := do
   let kv := kvs line
+  -- the issuing provisioner: resolved by the model from the certificate's database record (provisioner
+  -- id), the name in its extension, and the provisioners the CA serves now
+  let provs ← listOf provEntry? (← look kv "pmap")
+  let P : PColl := { byID := provs.map (fun p => (p.id, p)), byName := provs.map (fun p => (p.name, p)) }
+  let prov := (P.byCertificate (← origin? (← look kv "org"))).map (·.name)
   let r : AdminReq := {
     parseOk := (← bool? (← look kv "p")), chainOk := (← bool? (← look kv "c")),
     digSig := (← bool? (← look kv "d")), sigOk := (← bool? (← look kv "g")),
-    prov := (← optStr? (← look kv "prov")), reuseKey := (← optStr? (← look kv "rk")),
+    prov := prov, reuseKey := (← optStr? (← look kv "rk")),
     now := (← int? (← look kv "now")), nbf := (← optInt? (← look kv "nbf")),
     exp := (← optInt? (← look kv "exp")), iat := (← optInt? (← look kv "iat")),
     aud := (← listOf aud? (← look kv "aud")), dnsNames := (← listOf str? (← look kv "dns")),
@@ -296,6 +332,10 @@ def tokEval (line : String) : Option String := do
   let routed ← bool? (← look kv "routed")
   let first := authorizeAdmin A [] r
   let res := if rep then (authorizeAdmin A first.1 r).2 else first.2
+  -- is the token's reuse key in the stored set afterwards? (`UseToken` ran)
+  let st := match r.reuseKey with
+    | some k => b (first.1.contains k)
+    | none => "0"
   let d := match res with
     | .ok a => s!"ok:{h a.id}:{b a.super}"
     | .unauthorized => "401"
@@ -304,7 +344,78 @@ def tokEval (line : String) : Option String := do
   let hh := if !routed then "unrouted" else match res with
     | .unauthorized => "401"
     | _ => "not401"
-  pure s!"{d} h-{hh} aw-{aw}"
+  pure s!"{d} h-{hh} aw-{aw} st-{st}"
+
+/-! ### stage `routes`: the extracted route table against `adminRoutes` -/
+
+def strOf (b : Str) : String := String.ofList (b.map Char.ofNat)
+
+def routeEval (line : String) : Option String := do
+  let kv := kvs line
+  let m := strOf (← str? (← look kv "m"))
+  let p := strOf (← str? (← look kv "p"))
+  let c ← listOf (fun t => (str? t).map strOf) (← look kv "c")
+  match adminRoutes.filter (fun r => r.method = m ∧ r.path = p) with
+  | [r] => pure (if r.chain = c then "present" else "chain-differs:" ++ ",".intercalate r.chain)
+  | [] => pure "absent"
+  | _ => pure "duplicate"
+
+/-! ### stage `valid`: the checks in front of the authority -/
+
+def dur? (t : String) : Option Dur :=
+  if t = "-" then some .absent else if t = "b" then some .bad else t.toInt?.map .val
+
+def durs? (t : String) : Option Durs :=
+  match t.splitOn "," with
+  | [a, b, c] => do pure { min := (← dur? a), max := (← dur? b), dflt := (← dur? c) }
+  | _ => none
+
+def validEval (line : String) : Option String := do
+  let kv := kvs line
+  match fields line with
+  | "dur" :: _ => do
+    pure (if validateDurations false (← durs? (← look kv "d")) then "ok" else "bad")
+  | "init" :: _ => do
+    pure (if claimerValidate globalClaims (← durs? (← look kv "d")) then "ok" else "bad")
+  | "body" :: _ => do
+    -- POST /admin/provisioners with a fresh name and good details: the body checks, then `Init`
+    -- with the claimer's validation of the X.509 durations (create: a bad request as well)
+    let blk (k : String) : Option (Option Durs) := do
+      let t ← look kv k
+      if t = "-" then pure none else (durs? t).map some
+    let x ← blk "x"
+    let su ← blk "su"
+    let sh ← blk "sh"
+    let b : ProvBody := { parses := (← bool? (← look kv "p")), claims := [x, su, sh].filterMap id,
+                          templatesOK := (← bool? (← look kv "t")) }
+    pure (match provBodyCheck false b with
+      | some o => authOutS o
+      | none => if claimerValidate globalClaims (x.getD {}) then "pass" else "bad")
+  | "det" :: _ => do
+    let k ← (← look kv "k").toNat?
+    let ds ← look kv "d"
+    let d ← (if ds = "!" then some none else ds.toNat?.map some)
+    let p : Prov := { id := [], name := [], tok := [], kid := none, sum := [], kind := k, dkind := d }
+    pure (if k ∈ provisionerKinds ∧ p.conv then "conv" else "refused")
+  | "wh" :: _ => do
+    let b : WebhookBody := {
+      parses := (← bool? (← look kv "p")), nameGiven := (← bool? (← look kv "n")), urlParses := (← bool? (← look kv "u")),
+      hostGiven := (← bool? (← look kv "h")), https := (← bool? (← look kv "s")), userinfo := (← bool? (← look kv "i")),
+      kindKnown := (← bool? (← look kv "k")), secretGiven := (← bool? (← look kv "sec")), idGiven := (← bool? (← look kv "id")),
+      nameTaken := (← bool? (← look kv "taken")) }
+    pure (match createWebhookCheck b with
+      | .proceed => "proceed" | .badRequest => "bad" | .conflict => "conflict")
+  | ["kinds"] => pure s!"n={provisionerKinds.length}"
+  | _ => none
+
+def orderEval (line : String) : Option String := do
+  let kv := kvs line
+  let f := strOf (← str? (← look kv "f"))
+  let c ← listOf (fun t => (str? t).map strOf) (← look kv "c")
+  match writeOrder.filter (fun e => e.1 = f) with
+  | [e] => pure (if e.2 = c then "present" else "order-differs:" ++ ",".intercalate e.2)
+  | [] => pure "absent"
+  | _ => pure "duplicate"
 
 def runOps {σ : Type} (f : σ → String → Option (σ × String)) : σ → List String → List String → Option (List String)
   | _, [], acc => some acc.reverse
@@ -330,6 +441,16 @@ def eval (line : String) : Option String := do
       else pure (summary (← runOps (authOp []) {} ops []))
     | [] => pure (summary [])
   | "tok" :: _ => tokEval line
+  | "route" :: _ => routeEval line
+  | ["routes"] => pure s!"n={adminRoutes.length}"
+  | "order" :: _ => orderEval line
+  | ["orders"] => pure s!"n={writeOrder.length}"
+  | "dur" :: _ => validEval line
+  | "init" :: _ => validEval line
+  | "body" :: _ => validEval line
+  | "det" :: _ => validEval line
+  | "wh" :: _ => validEval line
+  | ["kinds"] => validEval line
   | _ => none
 
 end C16
